@@ -152,6 +152,11 @@ CHECKS = {
         text="Each transformation's result is evaluated with mpmath at three generated points and compared with the value of the original recipe (conjugate: with its complex conjugate); numerator and denominator must not keep a negative numeric exponent on their top level; re and im must be real-valued at positive real symbol values. Exploration.",
         note="KF-C36-01 (as_real_imag of a negative base to a non-integer power) and KF-C36-02 (imaginary part of cot, pinned by the suite) are listed known findings with narrow matchers.",
         variants=["main"]),
+    "C39": dict(
+        engine="hy", technique="property-based testing: generated expressions of every kind incl. Derivative/Subs objects; independent tree walk over the raw dump as oracle for free_symbols / has_symbol / function_symbols / atoms<Symbol|FunctionSymbol>; polynomial reconstruction law for coeff",
+        text="free_symbols must equal the symbols occurring outside Subs-bound positions of the dumped tree, has_symbol must agree with it for every pool symbol, function_symbols and atoms must return exactly the matching sub-trees, and for generated polynomials in x with symbolic coefficients the coefficients returned by coeff must equal the constructed ones and reconstruct expand(p). Exploration.",
+        note="ConditionSet/ImageSet binders are not judged; atoms<Pow/Add/Mul> operate on the materialised get_args view and are not compared with the raw dump. KF-C39-01 (has_symbol sees Subs-bound variables) is a listed known finding.",
+        variants=["main"]),
 }
 
 NOT_APPLICABLE = {}
